@@ -38,6 +38,7 @@ FIXED = [
  ("C15", "F17-eval-surplus-operands", "`eval` refuses an instruction followed by surplus", "`eval add r1 r1 r1 r1` panicked in debug builds / executed in release builds"),
  ("C20", "F20-ctrl-right-byte-index", "Ctrl+Right returns a character index", "keys e-acute, Ctrl+Right, a tripped assert!(char_index <= char_count) (byte index used as char index)"),
  ("C08", "F30-nonutf8-destination-name", "a destination name that is not valid UTF-8", "`lace compile t.asm $'a\\377.lc3'` wrote the complete object file and then panicked (exit 101) in file_message's `to_str().unwrap()`: non-zero exit with the destination changed"),
+ ("C06", "F31-huge-object-file", "an object file far longer than the address space", "`truncate -s 200G big.lc3; lace run big.lc3` aborted (SIGABRT, status 134: `Vec::with_capacity(file size)` before any check) instead of the 'too long' error exit; a 4 GiB file was read whole before being rejected"),
  ("C20", "F27-ctrl-right-trailing-spaces", "Ctrl+Right from a word followed only by spaces", "keys a, space, space, Ctrl+Left, Ctrl+Right, +, Enter submitted `a+  ` instead of `a  +` (cursor stopped after the word instead of the end of line)"),
 ]
 KNOWN = [
